@@ -138,6 +138,21 @@ def run_case(case) -> dict:
             got_p, got_h = obj.members[i].protected or {}, obj.members[i].header or {}
         if got_p != want_p or got_h != want_h:
             f[f"C07:B:header-differs:{tag}"] = f"joserfc parsed protected={got_p!r} header={got_h!r}; signed {want_p!r} / {want_h!r}"
+    # the application edits the header of the object it got back (or re-issues it with a key set, which records a kid there); the same
+    # foreign token, verified again, yields the signed header again
+    if not f:
+        try:
+            for d in ([getattr(obj, "protected", None)] + [x for mm in (getattr(obj, "members", None) or []) for x in (mm.protected, mm.header)]):
+                if isinstance(d, dict):
+                    d["kid"] = "edited-by-the-application"
+                    d["x-note"] = 1
+            obj2 = jp.jose_verify(copy.deepcopy(token), plan, keymode, case["form"], private=False)
+            for i, m in enumerate(plan["members"]):
+                got_p = obj2.protected if plan["ser"] == "compact" else (obj2.members[i].protected or {})
+                if got_p != (m["protected"] or {}):
+                    f[f"C07:B:second-verification-header-differs:{tag}"] = f"verifying the same token again reports protected={got_p!r}; signed {m['protected']!r}"
+        except Exception as e:
+            f[f"C07:B:second-verification-raises:{tag}:{exc_key(e)}"] = f"the same conformant token is refused the second time: {type(e).__name__}: {e}"
     # two-step API (extract, then validate) with another token extracted in between: the signing input is that of THIS token
     if isinstance(token, str) and plan["b64"] is None and not f:
         from joserfc import jws
